@@ -31,8 +31,16 @@ pub enum COp {
     Inc,
     Get,
     Collect,
-    /// local(): inc_by(2^b) for each b, `units` × inc(), then flush() (or drop unflushed)
-    LocalBatch { bits: Vec<u8>, units: u8, flush: bool },
+    /// local(): inc_by(2^b) for each b, `units` × inc(), then flush() (or drop unflushed); with
+    /// `clone_mid` the local counter is cloned after its first increment, the remaining increments
+    /// go to the clone, and both are flushed: every increment must still arrive exactly once
+    LocalBatch {
+        bits: Vec<u8>,
+        units: u8,
+        flush: bool,
+        #[serde(default)]
+        clone_mid: bool,
+    },
     Reset,
 }
 #[derive(Serialize, Deserialize, Clone, Debug)]
@@ -79,34 +87,41 @@ impl Ctr {
             Ctr::I(c) => c.collect(),
         }
     }
-    fn batch(&self, bits: &[u8], units: u8, flush: bool) {
+    fn batch(&self, bits: &[u8], units: u8, flush: bool, clone_mid: bool) {
+        macro_rules! go {
+            ($c:expr, $conv:expr) => {{
+                let l = $c.local();
+                let mut second = None;
+                for (i, b) in bits.iter().enumerate() {
+                    if clone_mid && i == 1 {
+                        second = Some(l.clone());
+                    }
+                    match &second {
+                        Some(l2) => l2.inc_by($conv(1u64 << b)),
+                        None => l.inc_by($conv(1u64 << b)),
+                    }
+                }
+                if clone_mid && second.is_none() {
+                    second = Some(l.clone());
+                }
+                for _ in 0..units {
+                    match &second {
+                        Some(l2) => l2.inc(),
+                        None => l.inc(),
+                    }
+                }
+                if flush {
+                    l.flush();
+                    if let Some(l2) = &second {
+                        l2.flush();
+                    }
+                    l.flush();
+                }
+            }};
+        }
         match self {
-            Ctr::F(c) => {
-                let l = c.local();
-                for b in bits {
-                    l.inc_by((1u64 << b) as f64);
-                }
-                for _ in 0..units {
-                    l.inc();
-                }
-                if flush {
-                    l.flush();
-                    l.flush();
-                }
-            }
-            Ctr::I(c) => {
-                let l = c.local();
-                for b in bits {
-                    l.inc_by(1u64 << b);
-                }
-                for _ in 0..units {
-                    l.inc();
-                }
-                if flush {
-                    l.flush();
-                    l.flush();
-                }
-            }
+            Ctr::F(c) => go!(c, |x: u64| x as f64),
+            Ctr::I(c) => go!(c, |x: u64| x),
         }
     }
 }
@@ -160,7 +175,7 @@ impl C01 {
                         let nb = 1 + r.below(3) as u8;
                         let bits = (0..nb).map(|i| next_bit + i).collect();
                         next_bit += nb;
-                        COp::LocalBatch { bits, units: r.below(3) as u8, flush: !r.chance(12) }
+                        COp::LocalBatch { bits, units: r.below(3) as u8, flush: !r.chance(12), clone_mid: r.chance(30) }
                     }
                     _ => {
                         if reset_run && !reset_placed {
@@ -255,8 +270,8 @@ impl C01 {
                         };
                         Some(compat::single_value(&mfs).unwrap_or(f64::NAN))
                     }
-                    COp::LocalBatch { bits, units, flush } => {
-                        c.batch(bits, *units, *flush);
+                    COp::LocalBatch { bits, units, flush, clone_mid } => {
+                        c.batch(bits, *units, *flush, *clone_mid);
                         None
                     }
                     COp::Reset => {
@@ -316,9 +331,20 @@ fn judge_counter(plan: &CounterPlan, iv: &std::collections::BTreeMap<u32, (usize
         match op {
             COp::IncBy(k) => incs.push(IncOp { inv, ret, bits: 1u64 << k, units: 0 }),
             COp::Inc => plain_units.push((inv, ret)),
-            COp::LocalBatch { bits, units, flush } => {
-                if *flush {
+            COp::LocalBatch { bits, units, flush, clone_mid } => {
+                if *flush && !*clone_mid {
                     incs.push(IncOp { inv, ret, bits: bits.iter().fold(0, |a, b| a | 1u64 << b), units: *units as u64 })
+                } else if *flush {
+                    // two local counters, two flushes: the first increment, then everything else
+                    incs.push(IncOp { inv, ret, bits: 1u64 << bits[0], units: 0 });
+                    let rest = bits[1..].iter().fold(0, |a, b| a | 1u64 << b);
+                    if rest != 0 {
+                        incs.push(IncOp { inv, ret, bits: rest, units: *units as u64 });
+                    } else {
+                        for _ in 0..*units {
+                            plain_units.push((inv, ret));
+                        }
+                    }
                 }
             }
             COp::Reset => resets.push((inv, ret)),
@@ -478,6 +504,10 @@ pub enum GOp {
     Inc,
     Dec,
     Get,
+    /// set(+0.0) / set(-0.0) (float gauges; an integer gauge is set to 0)
+    SetZero(bool),
+    /// add(+0.0) / add(-0.0)
+    AddZero(bool),
 }
 #[derive(Serialize, Deserialize, Clone, Debug)]
 pub struct GaugePlan {
@@ -504,6 +534,10 @@ impl Gg {
             (Gg::I(g), GOp::Inc) => g.inc(),
             (Gg::F(g), GOp::Dec) => g.dec(),
             (Gg::I(g), GOp::Dec) => g.dec(),
+            (Gg::F(g), GOp::SetZero(neg)) => g.set(if *neg { -0.0 } else { 0.0 }),
+            (Gg::I(g), GOp::SetZero(_)) => g.set(0),
+            (Gg::F(g), GOp::AddZero(neg)) => g.add(if *neg { -0.0 } else { 0.0 }),
+            (Gg::I(g), GOp::AddZero(_)) => g.add(0),
             (_, GOp::Get) => return Some(self.get()),
         }
         None
@@ -533,6 +567,8 @@ impl Spec for GaugeSpec {
             GOp::Sub(k) => Some(s - (1i64 << k)),
             GOp::Inc => Some(s + 1),
             GOp::Dec => Some(s - 1),
+            GOp::SetZero(_) => Some(0),
+            GOp::AddZero(_) => Some(*s),
             GOp::Get => {
                 if op.1 == Some(*s) {
                     Some(*s)
@@ -580,7 +616,12 @@ impl C11 {
                     50..=59 => GOp::Dec,
                     60..=74 => {
                         if with_set {
-                            GOp::Set(1 + r.below(100) as u8)
+                            // signed zeros: the bit patterns differ although the values compare equal
+                            match r.below(10) {
+                                0..=2 => GOp::SetZero(r.chance(50)),
+                                3 => GOp::AddZero(r.chance(50)),
+                                _ => GOp::Set(1 + r.below(100) as u8),
+                            }
                         } else {
                             GOp::Get
                         }
@@ -649,7 +690,7 @@ impl C11 {
         }
         // sub(x) undoes add(x): fully paired plans without set/inc/dec end at zero
         let flat: Vec<&GOp> = plan.threads.iter().flatten().collect();
-        let only_pairs = flat.iter().all(|o| matches!(o, GOp::Add(_) | GOp::Sub(_) | GOp::Get));
+        let only_pairs = flat.iter().all(|o| matches!(o, GOp::Add(_) | GOp::Sub(_) | GOp::Get | GOp::AddZero(_)));
         if only_pairs {
             let mut bal: std::collections::BTreeMap<u8, i32> = Default::default();
             for o in &flat {
